@@ -207,6 +207,103 @@ theorem tickStepperF_K (hN : NK a0 N) (hac : afterClose a0 = false) (P : Prog) (
     · exact h
   · exact h
 
+/-! ### the other events -/
+
+theorem awaitableDone_same2 (c : Cfg) (f : Nat) : Same2 c (awaitableDone c f) := by
+  unfold awaitableDone
+  have hold : ∀ d : Cfg, Same2 d (match d.efKeys.find? (·.1 = f), d.efs[f]? with
+      | some (_, key), some (EFut.result v) => { d with ctx := (key, v) :: d.ctx.filter (·.1 ≠ key) }
+      | _, _ => d) := by
+    intro d; split
+    · exact ⟨rfl, rfl, rfl, rfl, rfl, rfl⟩
+    · exact Same2.rfl' d
+  dsimp only
+  split
+  · rename_i fn wf wakeup aw hst
+    split
+    · exact hold c
+    · have h1 : Same2 c { c with st := .waiting fn wf wakeup (aw.filter (·.1 ≠ f)) } :=
+        ⟨by simp [hst, SObj.label], by simp [hst, outcomeOf], rfl, rfl, rfl, rfl⟩
+      split
+      · split
+        · exact Same2.trans (Same2.trans h1 ⟨rfl, rfl, rfl, rfl, rfl, rfl⟩) (deliver_same2 ..)
+        · exact Same2.trans h1 ⟨rfl, rfl, rfl, rfl, rfl, rfl⟩
+      · exact Same2.trans h1 (deliver_same2 ..)
+      · exact h1
+  · exact hold c
+
+theorem complete_same2 (c : Cfg) (f : Nat) (o : EFut) : Same2 c (complete c f o) := by
+  unfold complete; split
+  · dsimp only; split <;> exact ⟨rfl, rfl, rfl, rfl, rfl, rfl⟩
+  · exact Same2.rfl' c
+
+theorem toLoop_K (r : FCfg × RetV) (h : K a0 r.1) : K a0 (toLoop r) := by
+  unfold toLoop; split
+  · exact K.upd h _ ⟨rfl, rfl, rfl, rfl, rfl, rfl⟩ (fun _ => rfl)
+  · exact h
+
+/-- cancelling the process future: only a pending future changes, and a terminated process has none -/
+theorem cancelFut_K (x : FCfg) (h : K a0 x) : K a0 (x.updC fun c => (cancelFut c).1) := by
+  refine ⟨h.arm.updC _, h.tr, ?_⟩
+  have hst : (cancelFut x.l.c).1.st = x.l.c.st := (cancelFut_fix x.l.c).1
+  rcases h.g with ⟨hm, hf, e, he, hs⟩ | ⟨hi, he⟩
+  · exact Or.inl ⟨hm, hf, e, he, by rw [updC_l, upd_c, hst]; exact hs⟩
+  · refine Or.inr ⟨?_, fun hm hf => by rw [updC_l, upd_c, hst]; exact he hm hf⟩
+    rw [updC_l, upd_c]
+    unfold cancelFut
+    split
+    · rename_i hp
+      have hl : terminal x.l.c.st.label = false := by
+        cases ht : terminal x.l.c.st.label with
+        | false => rfl
+        | true =>
+          have := (hi.term ht).2.2
+          rw [hp] at this
+          cases hs : x.l.c.st <;> simp [hs, outcomeOf] at this
+      obtain ⟨_, l2, l3⟩ := hi.live hl
+      exact ⟨fun _ => ⟨Or.inr rfl, l2, l3⟩, fun ht => by rw [show terminal x.l.c.st.label = false from hl] at ht; cases ht⟩
+    · exact hi
+
+theorem tickCbF_K (hN : NK a0 N) (hac : afterClose a0 = false) (x : FCfg) (cb : Cb) (h : K a0 x) : K a0 (tickCbF N x cb) := by
+  unfold tickCbF
+  split
+  · have h1 : K a0 (x.updC fun c => { c with ready := c.ready.erase cb }) :=
+      K.upd h _ ⟨rfl, rfl, rfl, rfl, rfl, rfl⟩ (fun _ => rfl)
+    split
+    · exact K.upd h1 _ (awaitableDone_same2 ..) (fun ht => (awaitableDone_fix _ _ ht).1)
+    · unfold tryKillingF
+      exact K.upd (toLoop_K _ (killF_K hN hac _ h1)) _ ⟨rfl, rfl, rfl, rfl, rfl, rfl⟩ (fun _ => rfl)
+    · split
+      · exact toLoop_K _ (failF_K hN hac _ _ h1)
+      · exact h1
+  · exact h
+
+theorem stepFN_K (hN : NK a0 N) (hac : afterClose a0 = false) (P : Prog) (x : FCfg) (ev : Ev) (h : K a0 x) :
+    K a0 (stepFN N P x ev).1 := by
+  cases ev <;> simp only [stepFN]
+  · exact tickStepperF_K hN hac P x h
+  · exact tickCbF_K hN hac x _ h
+  · exact pauseF_K hN x h
+  · exact playF_K hN x h
+  · exact killF_K hN hac x h
+  · exact K.upd h _ (by unfold resume; split; exact deliver_same2 ..; exact Same2.rfl' _) (fun ht => (resume_fix _ _ ht).1)
+  · exact failF_K hN hac x _ h
+  · exact cancelFut_K x h
+  · exact K.upd h _ (complete_same2 ..) (fun _ => (complete_fix ..).1)
+  · exact K.upd h _ ⟨rfl, rfl, rfl, rfl, rfl, rfl⟩ (fun _ => rfl)
+
+/-- **every event of a run with an injected fault keeps `K`** -/
+theorem stepF_K (hac : afterClose a0 = false) (P : Prog) (x : FCfg) (ev : Ev) (h : K a0 x) : K a0 (stepF P x ev).1 :=
+  stepFN_K (fireNF_nk hac _) hac P x ev h
+
+theorem runF_K (hac : afterClose a0 = false) (P : Prog) (x0 : FCfg) (evs : List Ev) (h : K a0 x0) : K a0 (runF P x0 evs) := by
+  induction evs generalizing x0 with
+  | nil => exact h
+  | cons e es ih => exact ih _ (stepF_K hac P x0 e h)
+
+theorem initX_K (a0 : Arm) (nf : Nat) (plan : Plan) : K a0 (initX nf plan (some a0)) := by
+  refine ⟨⟨fun b hb => by cases hb; exact ⟨rfl, rfl⟩, fun hf => by cases hf⟩, rfl, Or.inr ⟨Inv2w.of_inv2 (inv2_init nf), fun _ hf => by cases hf⟩⟩
+
 end
 end FP
 end PMF
